@@ -313,7 +313,12 @@ impl World for OnceWorld {
                 }
             }
             if res == "!" {
-                match r.w.resolved_by.get(&f) { Some(Outcome::Panic) => {}, _ => r.violation("C08", format!("future {} panicked although its own initialiser did not", f)) }
+                if kind == OK::Wait {
+                    // debug_assert!(self.is_initialized()) fired: wait() was about to hand out a reference to an empty cell
+                    r.violation("C04", format!("wait() future {} completed (debug assertion failed) although the cell is not initialised", f));
+                } else {
+                    match r.w.resolved_by.get(&f) { Some(Outcome::Panic) => {}, _ => r.violation("C08", format!("future {} panicked although its own initialiser did not", f)) }
+                }
             }
         }
         if r.w.metas.values().any(|m| m.st == St::Done) { r.stats.done_kept += 1; }
